@@ -223,8 +223,27 @@ def optimal_cases(draw, tier):
 
 
 @st.composite
+def island_grids(draw):
+    """grid with one admissible voxel whose 26 neighbours are all blocked (it cannot percolate) inside an otherwise open grid"""
+    shape = [draw(st.integers(4, 5)) for _ in range(3)]
+    F = np.array(draw(st.lists(st.sampled_from([0.0, 0.5, 1.0, 2.5]), min_size=int(np.prod(shape)), max_size=int(np.prod(shape))))).reshape(shape)
+    c = [draw(st.integers(0, n - 1)) for n in shape]
+    for d in oracle.ALL_MOVES:
+        F[tuple((c[i] + d[i]) % shape[i] for i in range(3))] = 1e8
+    F[tuple(c)] = draw(st.sampled_from([0.0, 0.5]))
+    return F.tolist(), c
+
+
+@st.composite
 def percolate_cases(draw, tier):
     perc = draw(st.sampled_from(['x', 'y', 'z', 'xy', 'xz', 'yz', 'xyz', 'zyx', 'yx']))
+    if draw(st.integers(0, 3)) == 0:
+        F, c = draw(island_grids())
+        adm = [idx for idx in np.ndindex(*np.shape(F)) if 0 <= np.array(F)[idx] < THR]
+        k_island = adm.index(tuple(c))
+        others = draw(st.lists(st.integers(0, len(adm) - 1), min_size=1, max_size=3))
+        peaks = draw(st.permutations([k_island] + others))
+        return {'lattice': draw(gen.lattices(families=['cubic'], orients=['lower'])), 'F': F, 'peaks': list(peaks), 'percolate': perc}
     return {'lattice': draw(gen.lattices(families=['cubic', 'orthorhombic', 'triclinic'], orients=['lower'])), 'F': draw(grids(max_side=4)),
             'peaks': draw(st.lists(st.integers(0, 63), min_size=1, max_size=4)), 'percolate': perc}
 
